@@ -226,6 +226,35 @@ def drive_faceq_near(doms, rng, dtype_name):
     return r
 
 
+def drive_apply_wide(doms, dtname):
+    """weights given as a plain Tensor of a dtype WIDER than the default one (float64 / int64 while the default is
+    float32), with values the default dtype cannot hold: apply returns the weight that was given.  Recorded in units of
+    2^-30 (float64: 1 + (j+1) 2^-30) or as integers (int64: 2^24 + 1 + j)."""
+    import torch
+    from fggs.factors import FiniteFactor
+    shape = [len(d['vals']) for d in doms]
+    n = 1
+    for s_ in shape:
+        n *= s_
+    if dtname == 'float64':
+        units = [(1 << 30) + j + 1 for j in range(n)]
+        t = torch.tensor([u / (1 << 30) for u in units], dtype=torch.float64).reshape(shape)
+        back = lambda x: int(round(float(x) * (1 << 30))) if float(x) * (1 << 30) == round(float(x) * (1 << 30)) else NONINT
+    else:
+        units = [(1 << 24) + 1 + j for j in range(n)]
+        t = torch.tensor(units, dtype=torch.int64).reshape(shape)
+        back = lambda x: int(x) if float(x) == int(x) else NONINT
+    r = {'k': 'apply', 'doms': doms, 'w': units, 'app': [], 'out': 'ok', 'tag': ['apply', 'tensor_' + dtname]}
+    try:
+        f = FiniteFactor([mkdom(d) for d in doms], t)
+        for vals in itertools.product(*[d['vals'] for d in doms]):
+            x = f.apply([py_of(d, v) for d, v in zip(doms, vals)])
+            r['app'].append([list(vals), back(x.item() if hasattr(x, 'item') else x)])
+    except Exception as e:  # noqa
+        r['out'] = 'raise:' + type(e).__name__
+    return r
+
+
 def drive_faceq_views(d, rng):
     """two factors over (d, d) whose weights are VIEWS OF ONE TENSOR laid out differently (w and w.t(), a patterned tensor
     and its transpose, a tensor and a clone): equality is by the dense weights, not by where they are stored"""
@@ -338,6 +367,9 @@ def run(tier, seed):
             for form in ('list', 'tensor', 'patterned'):
                 for how in ('assign', 'inplace'):
                     cases.extend(drive_apply_hist(ds, form, how))
+        for ds in nonempty:
+            for dtn in ('float64', 'int64'):
+                cases.append(drive_apply_wide(ds, dtn))
         for j in range(150 if tier == 'quick' else 1500):
             cases.append(drive_faceq_near(rng.choice(nonempty + [[]]), rng, 'float32' if j % 2 else 'float64'))
         sq = [d for d in small if len(d['vals']) >= 2]
